@@ -51,4 +51,29 @@ REGISTRY = {
         "trusted_base": TB_KERNEL,
         "assumptions": ["exact arithmetic"],
     },
+    "C13": {
+        "modules": ["SophtVerif.Props.C13"],
+        "required_theorems": ["C13_frame_buffers", "C13_frame_cells", "C13_set_fixed_val_2d", "C13_set_boundary_2d",
+                              "C13_diffusion_flux_2d", "C13_outplane_curl_2d", "C13_inplane_curl_2d",
+                              "C13_update_vorticity_from_forcing_2d", "C13_brinkmann_2d", "C13_brinkmann_vec_2d",
+                              "C13_elementwise_sum_2d", "C13_elementwise_copy_2d", "C13_elementwise_saxpby_2d"],
+        "correspondence": ["corr.cases2d:run_wrappers"],
+        "trusted_base": TB_KERNEL + ["hand-written wrapper programs (Model/Prog2D.lean) are trusted as far as the trace + numeric correspondence exercised them: every 2D public generator x option on non-square strided views, this run"],
+        "assumptions": ["exact arithmetic for values; bit-identity of untouched cells/buffers is observed on the implementation (sentinel-padded strided views) and proved for the model"],
+        "level_text": "Machine-checked proof (Lean 4) for the 2D public kernels: each wrapper program (element-wise algebra, boundary setters of any width, diffusion flux and out-of-plane curl with/without ghost-zone reset, in-plane curl, vorticity updates, Brinkmann scalar/vector) writes its closed form on its documented region and leaves every other cell and buffer unchanged, for all stores, scalars and grid sizes >= 1; generic frame theorems cover every program. The wrapper programs are hand-written models tied to the code by an exact kernel-call-trace comparison plus numeric execution of the model at Q against the implementation, and the implementation is additionally compared with an independent numpy reference. 3D wrappers: correspondence and reference only so far (theorems in progress).",
+        "level_note": KERNEL_NOTE + " Wrapper programs are hand models validated by correspondence (complete over generator options, sampled over sizes/contents).",
+        "technique": "Lean 4 proof over generated kernels + hand-written wrapper programs; trace/numeric correspondence",
+    },
+    "C20": {
+        "modules": ["SophtVerif.Props.C20"],
+        "required_theorems": ["C20_euler_diffusion_2d", "C20_euler_advection_2d", "C20_euler_diffusion_2d_explicit",
+                              "C20_euler_advection_2d_explicit", "C20_ssprk3_nominal"],
+        "correspondence": ["corr.cases2d:run_wrappers"],
+        "oracle": "oracles.c20:run",
+        "trusted_base": TB_KERNEL + ["SSP-RK3: the polynomial identity is proved for the abstract stage structure; that the kernel has this stage structure with full step in every stage is checked on the implementation by the oracle (stage prefactors) — program-level tie of the 3D kernel in progress"],
+        "assumptions": ["exact arithmetic", "flux operator linear in vorticity for frozen velocity (abstract linear map A)"],
+        "level_text": "Machine-checked proof (Lean 4): the 2D Euler-forward advection and diffusion time-step programs return field + flux(field) with the library's own flux wrapper for the step given (flux buffer reset first; result independent of prior buffer content), all stores/sizes; SSP-RK3 stage structure with the full step in every stage equals I + A + A^2/2 + A^3/6 for every linear A (and the previous half-step third stage provably does not). 3D Euler kernels and the SSP-RK3 kernel's stage prefactors are so far tied by the oracle on the implementation only.",
+        "level_note": KERNEL_NOTE,
+        "technique": "Lean 4 proof (program unfolding; `module` for the Runge-Kutta polynomial)",
+    },
 }
